@@ -52,9 +52,10 @@ def main():
         pairs = []
         for modname, mod in mods:
             if hasattr(mod, "contracts"):
-                n = len([c for c in mod.contracts(repo) if a.pid in c.props])
-                if n:
-                    pairs.append((modname, n))
+                cs_ = [c for c in mod.contracts(repo) if a.pid in c.props]
+                if cs_:
+                    pairs.append((modname, len(cs_)))
+                    driver.COSTS.update({(modname, i): getattr(c, "cost", 1) for i, c in enumerate(cs_)})
         if pairs:
             failed = driver.discharge_contracts(rep, pairs, None, timeout_ms, jobs=a.jobs)
             by_mod = {}
@@ -86,6 +87,7 @@ def main():
                 rep.add_trusted(*mod.trusted(a.pid))
             if hasattr(mod, "bounded") and (modname in cfg.get("bounded_from", cfg["modules"])):
                 mod.bounded(rep, a.pid, known)
+        driver.class_state_obligations(rep, ledger)
     except Exception as e:  # noqa: BLE001
         import traceback
 
